@@ -48,9 +48,12 @@ func genC12(t *rapid.T) *c12Case {
 			c.Opts.Method = 4
 		}
 	}
-	content := rapid.SampledFrom([]string{"photo", "tiled", "tiled", "pal16", "pal256", "gradient", "noise", "sparse"}).Draw(t, "content")
+	content := rapid.SampledFrom([]string{"photo", "tiled", "tiled", "pal16", "pal256", "gradient", "noise", "sparse", "regions", "regions", "regions"}).Draw(t, "content")
 	alpha := rapid.SampledFrom([]string{"opaque", "opaque", "gradient", "binary"}).Draw(t, "alpha")
 	seed := rapid.Uint64().Draw(t, "seed")
+	if c.Opts.Lossless && rapid.Bool().Draw(t, "highQ") {
+		c.Opts.SetQuality(float32(rapid.IntRange(90, 100).Draw(t, "q90")))
+	}
 	c.Img = &gen.Img{W: w, H: h, Kind: "nrgba", Place: "tight", Content: content, Alpha: alpha}
 	c.Img.Pix = gen.RenderContent(w, h, content, alpha, seed)
 	c.Img.Colors = 300
